@@ -68,7 +68,7 @@ def rand_full(rng) -> str:
     return s
 
 
-def tie_full(ctx: Ctx, drv: Driver, n: int, ref: bool = False) -> None:
+def tie_full(ctx: Ctx, drv: Driver, n: int, ref: bool = False, render: bool = False) -> None:
     from markdown_it import MarkdownIt
     from markdown_it.common import normalize_url as nu
     from markdown_it.common.utils import normalizeReference
@@ -114,7 +114,9 @@ def tie_full(ctx: Ctx, drv: Driver, n: int, ref: bool = False) -> None:
             tj = rng.random() < 0.85
             inl = rng.random() < 0.93
             store = rng.random() < 0.3
-            md = MarkdownIt("zero", {"maxNesting": mn, "html": html_on, "store_labels": store, "inline_definitions": idefs})
+            xh, brk, lp = rng.random() < 0.5, rng.random() < 0.3, rng.choice(["language-", "language-", "lang-", "", "x y-"])
+            ropts = {"xhtmlOut": xh, "breaks": brk, "langPrefix": lp} if render else {}
+            md = MarkdownIt("zero", {"maxNesting": mn, "html": html_on, "store_labels": store, "inline_definitions": idefs, **ropts})
             md.enable(["blockquote", "list"] + [MORE_NAMES[j] for j in range(6) if bits >> (5 - j) & 1] + (["reference"] if ref_on else []))
             en = [INLINE_NAMES[c] for c in rs if c in INLINE_NAMES]
             if en:
@@ -154,9 +156,13 @@ def tie_full(ctx: Ctx, drv: Driver, n: int, ref: bool = False) -> None:
             refmod.normalizeReference = nr
             seeded = dict(env.get("references", {}))
             try:
-                toks = md.parse(src, env)
-                e = "ok " + " ".join(enc_toks(toks))
-                if ref:
+                if render:
+                    e = "ok " + enc(md.render(src, env))
+                    toks = []
+                else:
+                    toks = md.parse(src, env)
+                    e = "ok " + " ".join(enc_toks(toks))
+                if ref and not render:
                     added = [(k, v) for k, v in env.get("references", {}).items() if k not in seeded]
                     e += " #refs " + (",".join(f"{enc(k)}={enc(v['href'])}={enc(v['title'])}" for k, v in added) or "~")
                     e += " #dups " + (",".join(f"{enc(v['label'])}={enc(v['href'])}={enc(v['title'])}" for v in env.get("duplicate_refs", [])) or "~")
@@ -166,6 +172,8 @@ def tie_full(ctx: Ctx, drv: Driver, n: int, ref: bool = False) -> None:
             rh = {k: v["href"] for k, v in seeded.items()}
             rt = {k: v["title"] for k, v in seeded.items() if v["title"]}
             req = f"fullparser {bits:06b}{1 if html_on else 0}{1 if ref_on else 0}{1 if idefs else 0}" if ref else f"fullparse {bits:06b}{1 if html_on else 0}"
+            if render:
+                req = f"fullrender {1 if xh else 0} {1 if brk else 0} {enc(lp)} {bits:06b}{1 if html_on else 0}{1 if ref_on else 0}{1 if idefs else 0}"
             lines.append(f"{req} {mn} {rs or '-'} {1 if fj else 0} {1 if inl else 0} {1 if tj else 0} {pairs(ents)} "
                          f"{pairs(seen_norm)} {pairs(seen_text)} {1 if has_refs else 0} {1 if store else 0} {pairs(rh)} {pairs(rt)} {pairs(seen_ref)} {enc(src)}")
             exp.append(e)
@@ -186,11 +194,13 @@ def tie_full(ctx: Ctx, drv: Driver, n: int, ref: bool = False) -> None:
         if e.strip() != g.strip():
             bad += 1
             if bad <= 5:
-                ctx.mismatch("MarkdownIt.parse end to end (modelled sub-language" + (", with the reference rule" if ref else "") + "): implementation and model differ",
+                ctx.mismatch("MarkdownIt.parse end to end (modelled sub-language" + (", with the reference rule" if ref else "") + (", rendered to HTML" if render else "") + "): implementation and model differ",
                              {"input": m[0], "block_enabled": ["blockquote", "list"] + [MORE_NAMES[j] for j in range(6) if m[1] >> (5 - j) & 1],
                               "html": m[2], "maxNesting": m[3], "inline_rules": m[4], "fragments_join": m[5], "inline": m[6], "text_join": m[7],
                               "has_refs": m[8], "store_labels": m[9], "refs": m[10], "impl": e[:700], "model": g[:700]})
-    if ref:
+    if render:
+        ctx.cov["full_render_tie"] = {"documents": len(lines), "documents_with": kinds}
+    elif ref:
         ctx.cov["full_parse_ref_tie"] = {"documents": len(lines), "documents_with": kinds, "documents_recording_definitions": ndefs}
     else:
         ctx.cov["full_parse_tie"] = {"documents": len(lines), "documents_with": kinds}
